@@ -369,4 +369,6 @@ def parts(tier):
     ps.append(InputPart("shift-textgrid", gen_tgshift, _check_tg_shift,
                         rule="3-tier textgrids (incl. empty tiers) x offsets x 3 modes: tier-wise shift model, span hull, reporting",
                         bounds={"tiers": 3}))
+    from mc.props import live as _live_hist
+    ps.append(_live_hist.history_part())
     return ps
